@@ -2,7 +2,7 @@
 import ast
 
 from vstat.loader import AnalysisError
-from vstat.terms import IT, CMP, ordered, builder, show, SELF, NONE, G, alts, walk, mentions, phi
+from vstat.terms import top_alts, IT, CMP, ordered, builder, show, SELF, NONE, G, alts, walk, mentions, phi
 from vstat.guards import path_conditions
 from vstat.cfg import cfg_of
 from vstat.sigs import bind
@@ -74,15 +74,22 @@ def compute(prog, rep):
     # ---- coordinates
     labeled = IT(lab[1], 0)
     nmodes = IT(lab[1], 1)
-    loops = [s for s in cfg.all_stmts() if isinstance(s, ast.For)]
-    lab_loop = [l for l in loops if b.term(l.iter, l) == ("call", G("range"), (("const", 1), ("bin", "+", nmodes, ("const", 1))), ())]
-    rep.check(len(lab_loop) == 1, "C15.coords", f"{q}:labels", fn.where(lab[0]), "for i in range(1, n_modes + 1)",
-              "every component label 1..n_modes must be visited (range(1, n_modes + 1))")
+    # the list of per-region coordinate sets as a term: a comprehension over the labels, or a list filled by one append in a
+    # loop over the labels (the same term); each element the per-dimension lookup, again comprehension or append loop
+    rng_labels = ("call", G("range"), (("const", 1), ("bin", "+", nmodes, ("const", 1))), ())
+    outers = []
+    for st_, _nm, tv in b.list_values():
+        for _l, a in top_alts(tv):
+            if a[0] == "comp" and a[1] == "list" and a[4] == rng_labels and a not in outers:
+                outers.append(a)
+    rep.check(len(outers) == 1 and not outers[0][5], "C15.coords", f"{q}:labels", fn.where(lab[0]), "one coordinate set for every i in range(1, n_modes + 1)",
+              "every component label 1..n_modes must be visited (range(1, n_modes + 1)), each giving one coordinate set")
+    lab_loop = outers
     okc = False
     why = "no per-dimension coordinate lookup found"
-    if lab_loop:
-        L = lab_loop[0]
-        i = ("idx", f"{L.lineno}:{L.col_offset}", "range", (("const", 1), ("bin", "+", nmodes, ("const", 1))))
+    if len(outers) == 1:
+        outer = outers[0]
+        i = ("idx", outer[3], "range", (("const", 1), ("bin", "+", nmodes, ("const", 1))))
         nz = ("call", G("numpy.nonzero"), (CMP("==", labeled, i),), ())
         CCs = [s for s in cfg.all_stmts() if isinstance(s, ast.Assign) and isinstance(s.targets[0], ast.Attribute) and s.targets[0].attr == "cell_center_coordinates"]
         CC = b.term(CCs[0].value, CCs[0]) if len(CCs) == 1 else None
@@ -97,36 +104,21 @@ def compute(prog, rep):
                 return ("idx", lid, "range", it[2])
             return None
 
-        for st in ast.walk(L):
-            if isinstance(st, ast.ListComp):
-                holder = next((s for s in cfg.all_stmts() if any(n_ is st for n_ in ast.walk(s)) and not isinstance(s, (ast.For, ast.If, ast.While))), None)
-                if holder is None:
-                    continue
-                t = b.term(st, holder)
-                d = dim_index(t[4], t[3]) if t[0] == "comp" else None
-                if d is not None:
-                    a = t[2]
-                    okc = a[0] == "sub" and a[2] == ("sub", nz, d) and a[1][0] == "sub" and a[1][2] == d and len(CCs) == 1 and b.term(CCs[0].value, CCs[0]) == a[1][1]
-                    why = f"the coordinate of dimension d must be cell_center_coordinates[d][indices_d] with d and indices_d from the SAME enumeration of np.nonzero(labeled == i); found {show(a)[:160]}"
-        inner = [s for s in ast.walk(L) if isinstance(s, ast.For) and s is not L]
-        for il in inner:
-            it = b.term(il.iter, il)
-            d = dim_index(it, f"{il.lineno}:{il.col_offset}")
-            if d is not None:
-                for st in il.body:
-                    if isinstance(st, ast.Expr) and isinstance(st.value, ast.Call) and isinstance(st.value.func, ast.Attribute) and st.value.func.attr == "append":
-                        a = b.term(st.value.args[0], st)
-                        cc = a[1][1] if a[0] == "sub" and a[1][0] == "sub" else None
-                        okc = a[0] == "sub" and a[2] == ("sub", nz, d) and a[1][0] == "sub" and a[1][2] == d
-                        why = (f"the coordinate of dimension d must be cell_center_coordinates[d][indices_d] with d and indices_d from the SAME enumeration of np.nonzero(labeled == i); "
-                               f"found {show(a)[:160]}")
-                        if okc:
-                            # the grid list is the one stored as self.cell_center_coordinates
-                            st_c = [s for s in cfg.all_stmts() if isinstance(s, ast.Assign) and isinstance(s.targets[0], ast.Attribute) and s.targets[0].attr == "cell_center_coordinates"]
-                            okc = len(st_c) == 1 and b.term(st_c[0].value, st_c[0]) == cc
-                            why = "the coordinates must be read from the same cell-centre grids the density was evaluated on"
+        inner = outer[2]
+        if inner[0] == "comp" and inner[1] == "list" and not inner[5]:
+            d = dim_index(inner[4], inner[3])
+            a = inner[2]
+            if d is None:
+                why = f"dimensions must be enumerated from np.nonzero(labeled_array == i) of the region's own label i; found {show(inner[4])[:140]}"
             else:
-                why = f"dimensions must be enumerated from np.nonzero(labeled_array == i); found {show(it)[:120]}"
+                okc = a[0] == "sub" and a[2] == ("sub", nz, d) and a[1][0] == "sub" and a[1][2] == d
+                why = (f"the coordinate of dimension d must be cell_center_coordinates[d][indices_d] with d and indices_d from the SAME enumeration of np.nonzero(labeled == i); "
+                       f"found {show(a)[:160]}")
+                if okc:
+                    okc = CC is not None and a[1][1] == CC
+                    why = "the coordinates must be read from the same cell-centre grids the density was evaluated on (the list stored as self.cell_center_coordinates)"
+        else:
+            why = f"each region's coordinate set must be the per-dimension lookup list; found {show(inner)[:160]}"
     rep.check(okc, "C15.coords", f"{q}:lookup", fn.where(), "coords_d = cell_center_coordinates[d][nonzero(labeled == i)[d]]", why)
     # ---- shape
     from vstat.terms import guarded_alts
@@ -136,7 +128,7 @@ def compute(prog, rep):
     # the list of per-region coordinate sets: an (unmodelled) empty list, or - a list filled by one append in the label loop
     # reads as a comprehension - the comprehension over the label loop; compared structurally, because guarded and plain
     # builders spell the terms nested inside it differently
-    lab_lid = f"{lab_loop[0].lineno}:{lab_loop[0].col_offset}" if lab_loop else None
+    lab_lid = lab_loop[0][3] if lab_loop else None
 
     def is_lst(x):
         return x == ("list", ()) or (x[0] == "comp" and x[1] == "list" and x[3] == lab_lid and not x[5])
